@@ -524,7 +524,11 @@ class IntegerFieldFormat(AbstractFieldFormat):
         else:
             lower_limit = self.valid_range.lower_limit
             upper_limit = self.valid_range.upper_limit
-            limit = max(sign_adjusted_limit(lower_limit), sign_adjusted_limit(upper_limit))
+            if (lower_limit is None) or (upper_limit is None):
+                # A range without lower or upper limit, for example "0...".
+                limit = None
+            else:
+                limit = max(sign_adjusted_limit(lower_limit), sign_adjusted_limit(upper_limit))
         return "int", limit
 
     def validated_value(self, value):
